@@ -267,6 +267,7 @@ func checkC02(c *Check) {
 		}
 	}
 	nSk := skippedEffects(c, "SKIPPED-EFFECT", ppFns)
+	walkEveryFile(c, "WALK-EVERY-FILE")
 	c.Counts["short_circuited_calls_in_loops"] = nSk
 	c.Okf("SKIPPED-EFFECT", "scan", "-", "%d functions of pkg/parse scanned for `flag = flag || f(x)` in loops: %d found and evaluated", len(ppFns), nSk)
 	c02Native(c, words)
